@@ -763,6 +763,30 @@ func runC07(c *core.Ctx) {
 		}
 		c.Check("poll-registration-atomic", f.Name+"/single-critical-section", f.PosStr(), early == 0,
 			"store.mu is released between the index comparison and the hand-out of dataChanged")
+		// every FSM entry point that installs new metadata does it under store.mu and wakes the pollers: sibling
+		// agreement between storeFSM.Apply and storeFSM.Restore (a follower that installs a leader's snapshot must
+		// wake the data nodes polling it, and HTTP readers hold the same lock)
+		for _, name := range []string{metap + ".(*storeFSM).Apply", metap + ".(*storeFSM).Restore"} {
+			g := c.Fn(name)
+			locks := false
+			for _, op := range g.LockOps() {
+				if op.Acquire && strings.HasSuffix(op.Class, "#W") && strings.Contains(op.Class, "mu") {
+					locks = true
+				}
+			}
+			wakes := false
+			for _, e := range g.Graph().Events {
+				if e.Kind == core.EvCall && e.Call != nil && len(e.Call.Args) == 1 {
+					if b, ok := core.Callee(g.Info(), e.Call).(*types.Builtin); ok && b.Name() == "close" && mentionsField(g.Info(), e.Call.Args[0], chF) {
+						wakes = true
+					}
+				}
+			}
+			c.Check("installer-locks-and-wakes-pollers", g.Name+"/store.mu", g.PosStr(), locks,
+				g.Name+" installs new metadata without taking store.mu for writing: HTTP readers and long-poll registration read the data under that lock")
+			c.Check("installer-locks-and-wakes-pollers", g.Name+"/close(dataChanged)", g.PosStr(), wakes,
+				g.Name+" installs new metadata without closing store.dataChanged: pollers registered before it are not woken, and a data node's cache stays behind until some later command is applied")
+		}
 	})
 
 	// an accepted command must be applicable on every replica: Apply is total over the registry and the validator in
